@@ -50,26 +50,46 @@ def specTagify (x : JNode) : Except Err Node :=
     | .ok j => expectedScript jsxVersions name (j.print 2 ['\n']) x.metasIn
   | _ => .error .exception
 
+/-- clauses for the answer of `jsx_tagify` / `jsx_alias` (up to and including the `again` flag) -/
+def tagifyClauses (x : JNode) : P (List (String × Bool)) := do
+  let t ← next
+  let res : Except Err (Str × Node) ←
+    if t == "ok" then (do let s ← zstr; let n ← node; pure (.ok (s, restoreBody s n)))
+    else if t == "err" then .error <$> errTok
+    else throw s!"bad result {t}"
+  expect "after"
+  let a1 ← jnode; let a4 ← jnode; let ids ← bool; let again ← bool
+  let resOk : List (String × Bool) :=
+    match specTagify x, res with
+    | .error e, .error e' => [("script:error-kind", e == e')]
+    | .error _, .ok _ => [("script:should-raise", false)]
+    | .ok _, .error _ => [("script:raised", false)]
+    | .ok n, .ok (s, n') =>
+      [("script:shape-and-collected-metadata", n.beq n'), ("script:text", s == n.render cfg 0 ['\n'])]
+  pure ([("pure:component-after-one-call", a1.beq x), ("pure:component-after-four-calls", a4.beq x),
+    ("pure:id-graph", ids), ("pure:same-result-again", again)] ++ resOk)
+
 def holdsC20 : OpTable
+  | "jsx_alias" => some do
+    let x ← jnode
+    expect "|"
+    let cs ← tagifyClauses x
+    let fresh ← bool
+    pure (firstFail (cs ++ [("pure:result-shares-a-mutable-object-with-the-component", fresh)]))
+  | "jsx_num" => some do
+    let t ← str; let v ← pyNum
+    expect "|"
+    let r ← implStrRes
+    if !v.wf then throw "jsx_num: the float is not in canonical form"
+    pure (firstFail [("numbers:python-str-of-the-number-is-not-what-the-statement-assumes", pyStrOf t v),
+      ("numbers:emitted-text-is-not-a-javascript-number-denoting-the-value",
+        match r with | .ok out => jsNumberDenotes out v | .error _ => false),
+      ("values:serialize", sameStrRes r (.ok (numJs t)))])
   | "jsx_tagify" => some do
     let x ← jnode
     expect "|"
-    let t ← next
-    let res : Except Err (Str × Node) ←
-      if t == "ok" then (do let s ← zstr; let n ← node; pure (.ok (s, restoreBody s n)))
-      else if t == "err" then .error <$> errTok
-      else throw s!"bad result {t}"
-    expect "after"
-    let a1 ← jnode; let a4 ← jnode; let ids ← bool; let again ← bool
-    let resOk : List (String × Bool) :=
-      match specTagify x, res with
-      | .error e, .error e' => [("script:error-kind", e == e')]
-      | .error _, .ok _ => [("script:should-raise", false)]
-      | .ok _, .error _ => [("script:raised", false)]
-      | .ok n, .ok (s, n') =>
-        [("script:shape-and-collected-metadata", n.beq n'), ("script:text", s == n.render cfg 0 ['\n'])]
-    pure (firstFail ([("pure:component-after-one-call", a1.beq x), ("pure:component-after-four-calls", a4.beq x),
-      ("pure:id-graph", ids), ("pure:same-result-again", again)] ++ resOk))
+    let cs ← tagifyClauses x
+    pure (firstFail cs)
   | "jsx_init" => some do
     let name ← str; let up ← str; let allowed ← allowedArg; let kw ← jkwargs; let ks ← jnodes
     expect "|"
@@ -80,8 +100,8 @@ def holdsC20 : OpTable
       else throw s!"bad result {t}"
     let nameOk := nameInitial name == up
     let outside := match allowed with
-      | some (p :: ps) => kw.any fun kv => !(p :: ps).contains kv.1
-      | _ => false
+      | some ps => kw.any fun kv => !ps.contains kv.1      -- a declared list, empty or not
+      | none => false
     let cs : List (String × Bool) :=
       match res with
       | .error e =>
